@@ -124,7 +124,14 @@ def run(chk):
                 res = ["ValueError"]
             if fmt != "raw":
                 evs.append({"op": "key", "fmt": fmt, "text": [ord(c) for c in text], "res": res, "_key": key.hex()})
-        totp = TOTP(key=key, format="raw", alg=alg, digits=digits, period=period)
+        # factories made with other settings must leave the class they were made from untouched: half of the objects are then
+        # built from plain TOTP relying on its documented defaults (sha1, 6 digits, 30 s)
+        TOTP.using(alg=rnd.choice(["sha256", "sha512"]), digits=rnd.choice([7, 8]), period=rnd.choice([15, 60]))
+        if rnd.random() < .35:
+            alg, digits, period = "sha1", 6, 30
+            totp = TOTP(key=key, format="raw")
+        else:
+            totp = TOTP(key=key, format="raw", alg=alg, digits=digits, period=period)
         times = [0, 1, period - 1, period, period + 1, 59, 1111111109, 1234567890, 2000000000, 2 ** 31 - 1, 2 ** 31, 2 ** 32 - 1, 2 ** 32,
                  20000000000, 2 ** 40 - 1, 2 ** 40]
         k = rnd.randrange(1, 2 ** 36 // period)
@@ -156,6 +163,13 @@ def run(chk):
                 pc = "1" if period == 1 else "30" if period == 30 else "other"
                 chk.count(("gen", alg, digits, pc, form, digest[-1] & 15, tok.token[0] == "0", t >= 2 ** 31, key_now != key))
                 chk.action("generate" + ("-after-rekey" if key_now != key else ""))
+                if form == "int" and rnd.random() < .5:
+                    # the token as the clock moves on: valid / remaining at chosen instants (the clock is a setting of the factory)
+                    for off in (0, 1, period - 1, period, period + 1):
+                        clock = {"now": tok.start_time + off}
+                        tk = TOTP.using(now=lambda clock=clock: clock["now"])(key=key_now, format="raw", alg=alg, digits=digits, period=period).generate(t)
+                        evs.append({"op": "valid", "off": off, "p": period, "valid": bool(tk.valid), "remaining": int(tk.remaining), "_t": t})
+                        chk.action("validity")
                 if tuple(tok) != (tok.token, tok.expire_time):
                     chk.violation("generate:tuple", "TotpToken does not unpack as (token, expire_time)", {"t": t})
     # negative times are refused
